@@ -61,6 +61,7 @@ const (
 	ErrMerge    = "merge"
 	ErrNode     = "node-failure"
 	ErrEndSkip  = "end-not-reached"
+	ErrMissingKey = "missing-map-key"
 )
 
 // Exec is one expected node execution.
@@ -75,7 +76,10 @@ func (e Exec) String() string { return e.Path + "<-" + e.Input }
 type ModelResult struct {
 	Out   M
 	Err   string
-	Execs []Exec
+	// AltErr: other error classes the run may report instead of Err (several failures in
+	// one superstep: which one is reported is not fixed)
+	AltErr []string
+	Execs  []Exec
 	Steps int
 	// StateN is the expected final value of the state counter per stateful graph path
 	// ("" for the top level): the number of handler and ProcessState invocations.
@@ -292,7 +296,11 @@ func (mr *modelRun) runPregel(p *Plan, path, statePath string, in M) (M, string)
 		for _, k := range ready {
 			o, err := mr.execNode(p, path, statePath, p.node(k), inputs[k])
 			if err != ErrNone {
-				failed = err
+				if failed == "" {
+					failed = err
+				} else {
+					mr.res.AltErr = append(mr.res.AltErr, err)
+				}
 				continue // the other nodes of the step still run
 			}
 			outs[k] = o
@@ -319,6 +327,7 @@ func (mr *modelRun) runDAG(p *Plan, path, statePath string, in M) (M, string) {
 	// routed[from][to]: control edge from->to was taken; dataTo[to][from]: data contributed
 	routedCtrl := map[string]map[string]bool{}
 	dataTo := map[string]map[string]M{}
+	missing := false
 	contribute := func(e *Edge, v M) M {
 		if p.Mode != ModeWorkflow {
 			return v
@@ -330,6 +339,9 @@ func (mr *modelRun) runDAG(p *Plan, path, statePath string, in M) (M, string) {
 			k := e.From
 			if e.From == "start" {
 				k = "in"
+			}
+			if _, ok := v[k]; !ok {
+				missing = true
 			}
 			return M{e.From + "_v": v[k]}
 		}
@@ -395,6 +407,9 @@ func (mr *modelRun) runDAG(p *Plan, path, statePath string, in M) (M, string) {
 	resolve("start")
 	order := append(p.order(), "end")
 	failed := ""
+	if missing {
+		return nil, ErrMissingKey
+	}
 	for _, k := range order {
 		trig := false
 		for _, c := range ctrlPreds(k) {
@@ -438,7 +453,21 @@ func (mr *modelRun) runDAG(p *Plan, path, statePath string, in M) (M, string) {
 			return input, ErrNone
 		}
 		if failed != "" {
-			// a failed run stops scheduling; which later nodes still ran is schedule dependent
+			// a failed run stops scheduling; which later nodes still ran (and possibly failed
+			// too) depends on the batch they were in: evaluate them only to learn the
+			// alternative failures, on a scratch copy of the bookkeeping
+			if n := p.node(k); n != nil && (n.Kind == KSub || n.FailAt >= 0) {
+				saveExecs, saveSub := mr.res.Execs, mr.res.SubInputs
+				saveN := map[string]int{}
+				for a, b := range mr.res.StateN {
+					saveN[a] = b
+				}
+				_, err := mr.execNode(p, path, statePath, n, input)
+				mr.res.Execs, mr.res.SubInputs, mr.res.StateN = saveExecs, saveSub, saveN
+				if err != ErrNone {
+					mr.res.AltErr = append(mr.res.AltErr, err)
+				}
+			}
 			state[k] = skipped
 			continue
 		}
@@ -451,6 +480,9 @@ func (mr *modelRun) runDAG(p *Plan, path, statePath string, in M) (M, string) {
 		state[k] = ran
 		outv[k] = o
 		resolve(k)
+		if missing && failed == "" {
+			failed = ErrMissingKey
+		}
 	}
 	if failed != "" {
 		return nil, failed
